@@ -11,7 +11,23 @@ FirstOccC(s, i, acc) == IF i > Len(s) THEN acc ELSE FirstOccC(s, i + 1, IF \E j 
 FirstOcc(s) == FirstOccC(s, 1, <<>>)
 ElemOf(e, id) == e.elem[ToString(id)]
 WsKey(ty) == CASE ty = "ws_native" -> 1 [] ty = "ws_plutus" -> 6 [] OTHER -> 4
+\* Plutus scripts of several language versions placed through ONE typed setter: the witness set files them under keys 3 / 6 / 7;
+\* every distinct script is emitted exactly once over the three fields together
+MixJudge(e) ==
+  LET sc == e.sc arrived == e.init \o e.adds want == FirstOcc(arrived)
+      sig(w) == "Set/" \o e.type \o "/" \o e.path \o "/" \o w IN
+  IF Has(e.r, "panic") THEN Fail(P, sig("panic"), sc, e.r.panic)
+  ELSE IF ~Has(e.r, "ok") THEN Fail(P, sig("constructor-or-add-failed"), sc, e.r.err)
+  ELSE LET it0 == Parse(e.r.bytes) IN
+       IF IsErr(it0) THEN Fail(P, sig("serialized-bytes-malformed"), sc, it0.why) ELSE
+       LET field(k) == IF HasK(it0, k) THEN Untag(GetK(it0, k)).kids ELSE <<>>
+           kids == field(3) \o field(6) \o field(7)
+           spans == {Span(e.r.bytes, kids[j]) : j \in 1..Len(kids)} IN
+       /\ Obl(P, sc, <<e.type, e.path, Len(e.init), Len(e.adds), Len(want)>>)
+       /\ Chk(Len(kids) = Len(want) /\ spans = {ElemOf(e, want[j]) : j \in 1..Len(want)}, P,
+              IF Len(kids) > Len(want) THEN sig("element-serialized-twice") ELSE sig("element-lost"), sc, [arrived |-> arrived, got |-> Len(kids)])
 SetJudge(e) ==
+  IF e.type = "ws_plutus_mix" THEN MixJudge(e) ELSE
   LET sc == e.sc arrived == e.init \o e.adds want0 == FirstOcc(arrived)
       sig(w) == "Set/" \o e.type \o "/" \o e.path \o "/" \o w IN
   IF Has(e.r, "panic") THEN Fail(P, sig("panic"), sc, e.r.panic)
